@@ -323,6 +323,58 @@ def borrowed_and_factory_cases(ctx):
     return n
 
 
+def self_aliasing_appends(ctx):
+    """append() of an array that is (a view of) the receiver's own samples or of the caller's array that backs it: the list model
+    says `samples += the values the argument had when the call was made`, whether or not the buffer has to grow for them"""
+    import numpy as np
+    from nitypes.waveform import AnalogWaveform, ComplexWaveform, DigitalWaveform, Spectrum
+    from props.common import outcome, show
+    n = 0
+    for cls, kind, dty in ((AnalogWaveform, "a", np.int64), (AnalogWaveform, "a", np.float32), (ComplexWaveform, "a", np.complex128), (Spectrum, "s", np.float64), (DigitalWaveform, "d", np.uint8)):
+        for size in (4, 9, 50000):
+            for slack in (0, 2, size):
+                for how in ("whole", "tail", "head", "strided", "backing-array"):
+                    vals = (np.arange(size) % 2 if kind == "d" else np.arange(1, size + 1)).astype(dty)
+                    if how == "backing-array":
+                        buf = np.concatenate([vals, np.zeros(slack, dty)])
+                        if kind == "d":
+                            buf = buf.reshape(-1, 1)
+                            w = DigitalWaveform(data=buf, sample_count=size)
+                        elif kind == "s":
+                            w = Spectrum(data=buf, sample_count=size)
+                        else:
+                            w = cls(raw_data=buf, sample_count=size)
+                        arg = buf
+                    else:
+                        if kind == "d":
+                            w = DigitalWaveform.from_lines(vals.reshape(-1, 1))
+                        else:
+                            w = cls.from_array_1d(vals, dty)
+                        if slack:
+                            w.capacity = size + slack
+                        view = w.data if kind in ("s", "d") else w.raw_data
+                        arg = {"whole": view, "tail": view[size // 2:], "head": view[: size // 2 + 1], "strided": view[::2]}[how]
+                    before = (w.data if kind in ("s", "d") else w.raw_data).copy()
+                    argvals = np.array(arg, copy=True)
+                    o = outcome(w.append, arg)
+                    after = (w.data if kind in ("s", "d") else w.raw_data)
+                    n += 1
+                    ctx.case(("self-alias", cls.__name__, str(np.dtype(dty)), size, slack, how))
+                    ctx.count("self-alias", how)
+                    if o[0] == "ok":
+                        want = np.concatenate([before, argvals])
+                        if after.shape != want.shape or not np.array_equal(after, want):
+                            k = int(np.argmax((after != want).reshape(len(want), -1).any(axis=1))) if after.shape == want.shape else None
+                            ctx.violation(what="append of (a view of) the receiver's own samples", cls=cls.__name__, dtype=str(np.dtype(dty)), samples=size, spare_capacity=slack, argument=how,
+                                          first_wrong_sample=k, observed=(f"shape {after.shape}" if k is None else str(after[k])), required=(f"shape {want.shape}" if k is None else str(want[k])))
+                            return n
+                    elif not np.array_equal(after, before) or w.sample_count != size:
+                        ctx.violation(what="a refused append changed the waveform", cls=cls.__name__, argument=how, samples=size, spare_capacity=slack,
+                                      observed=f"{show(o)[:100]}; count {w.sample_count} capacity {w.capacity}", required="unchanged")
+                        return n
+    return n
+
+
 def run(ctx):
     world = H.World(ctx.rng)
     n_hist = 900 if ctx.quick else 5000
@@ -346,6 +398,7 @@ def run(ctx):
             ctx.count("class", r["kind"])
     ctx.extra["histories"] = n_hist + n_valid
     ctx.extra["borrowed_and_factory_calls"] = borrowed_and_factory_cases(ctx)
+    ctx.extra["self_aliasing_appends"] = self_aliasing_appends(ctx)
     ctx.extra["model_lines_compared"] = H.compare_with_model(ctx, world)
     for line, exp in list(zip(world.lines, world.expect))[5:400:60]:
         ctx.sample({"request": line[:200], "response": exp[:200]})
